@@ -789,7 +789,16 @@ func floatExcluded(p *Program, str *types.Func, pos token.Pos, field string) boo
 			}
 			if as, ok := x.Init.(*ast.AssignStmt); ok && len(as.Rhs) == 1 && x.Else != nil {
 				if ta, ok := ast.Unparen(as.Rhs[0]).(*ast.TypeAssertExpr); ok && ta.Type != nil && isField(ta.X) && isFloat(ta.Type) {
-					if x.Else.Pos() <= pos && pos < x.Else.End() {
+					// only the bare `ok` sends every float64 to the then-branch
+					bare := false
+					if len(as.Lhs) == 2 {
+						if okID, isID := as.Lhs[1].(*ast.Ident); isID {
+							if cid, isID := cond.(*ast.Ident); isID && p.Info.ObjectOf(cid) == p.Info.ObjectOf(okID) {
+								bare = true
+							}
+						}
+					}
+					if bare && x.Else.Pos() <= pos && pos < x.Else.End() {
 						found = true
 					}
 				}
